@@ -592,7 +592,7 @@ func drawScen(rt *rapid.T) *Scen {
 // TestC02_Random samples the full product including plugin situations.
 func TestC02_Random(t *testing.T) {
 	rec := stats.New(t, "C02", rule)
-	rp.Check(t, 12000, 500000, func(rt *rapid.T) {
+	rp.Check(t, 12000, 2000000, func(rt *rapid.T) {
 		evaluate(rt, rec, drawScen(rt))
 	})
 }
@@ -601,7 +601,7 @@ func TestC02_Random(t *testing.T) {
 // accepted under a map E implies accepted under every pointwise weaker map.
 func TestC02_Monotone(t *testing.T) {
 	rec := stats.New(t, "C02", rule+"; monotonicity: pairs (scenario, weaker map)")
-	rp.Check(t, 4000, 150000, func(rt *rapid.T) {
+	rp.Check(t, 4000, 400000, func(rt *rapid.T) {
 		s := drawScen(rt)
 		maps := kit.AllMaps()
 		strong := s.Level.Effective()
@@ -630,7 +630,7 @@ func TestC02_Monotone(t *testing.T) {
 		}
 	})
 	// the named chain strict => permissive => audit
-	rp.Check(t, 2000, 60000, func(rt *rapid.T) {
+	rp.Check(t, 2000, 200000, func(rt *rapid.T) {
 		s := drawScen(rt)
 		acc := map[string]bool{}
 		var errs = map[string]error{}
